@@ -693,6 +693,8 @@ package task
 // by concurrently compiling goroutines) and builds new maps: it never writes into a row
 //@ func product$1
 //@   modifies cells                                                                                             [C11,C18]
+//@   loop 1 invariant newResult == nil || fresh(arr(newResult))     -- the list being built is this call's own       [C11,C18]
+//@   loop 2 invariant newResult == nil || fresh(arr(newResult))                                                      [C11,C18]
 //@ func resolveMatrixRefs$1
 //@   modifies github.com/go-task/task/v3/internal/templater.*, resolved.om, om_has, om_val, om_len, om_key     [C11,C18]
 // every row, literal or ref, is put into the copy during ITS OWN iteration, under its own key: the copy keeps
